@@ -614,6 +614,15 @@ func e2eC09(repo, dir string, vals map[string]string) ([]string, error) {
 	if d1 != d2 {
 		bad = append(bad, "two faulty converters of the same name: `gen ./fa ./fb` and `gen ./fb ./fa` report different diagnostics ("+firstLine(d1)+" vs "+firstLine(d2)+")")
 	}
+	// the same for faults found while the settings are parsed (differently named converters)
+	for _, pk := range []string{"ca", "cb"} {
+		e.write(pk+"/in.go", "package "+pk+"\n\n// goverter:converter\n// goverter:nosuchsetting"+pk+"\ntype Conv"+pk+" interface {\n\tConvert(source In) Out\n}\ntype In struct{ A int }\ntype Out struct{ A int }\n")
+	}
+	_, _, c1 := e.run("gen", "./ca", "./cb")
+	_, _, c2 := e.run("gen", "./cb", "./ca")
+	if c1 != c2 {
+		bad = append(bad, "two converters with faulty settings: `gen ./ca ./cb` and `gen ./cb ./ca` report different diagnostics ("+firstLine(c1)+" vs "+firstLine(c2)+")")
+	}
 	// several simultaneous faults: the diagnostic is the same in every fresh process
 	e.write("q/in.go", "package q\n\n// goverter:converter\ntype C interface {\n\t// goverter:map A B\n\tA2D(source []A) []D\n\t// goverter:map A B\n\tD2A(source []D) []A\n\t// goverter:map A B\n\tB2C(source []B) []C\n\t// goverter:map A B\n\tC2B(source []C) []B\n}\ntype A struct{ A int }\ntype B struct{ B int }\ntype C struct{ B int }\ntype D struct{ B int }\n")
 	seen := map[string]bool{}
